@@ -80,7 +80,7 @@ type Walk struct {
 	Init     PathState
 	Step     func(in ssa.Instruction, st PathState, raw map[*ssa.Phi]ssa.Value) bool
 	OnCall   func(call *ssa.Call, callee *ssa.Function, st PathState)
-	OnReturn func(call *ssa.Call, ret *ssa.Return, st PathState)
+	OnReturn func(call *ssa.Call, ret *ssa.Return, st PathState, raw map[*ssa.Phi]ssa.Value)
 	onStack  map[string]int
 
 	Reached  map[ssa.Instruction]bool
@@ -289,7 +289,7 @@ func (w *Walk) block(b *ssa.BasicBlock, from int, env Env, raw map[*ssa.Phi]ssa.
 			return
 		case *ssa.Return:
 			if fr != nil {
-				w.returnTo(fr, t, env, st)
+				w.returnTo(fr, t, env, st, raw)
 				return
 			}
 			ro := &RetOutcome{Ret: t, RawEnv: raw, St: st}
@@ -348,6 +348,12 @@ func (w *Walk) evalD(v ssa.Value, env Env, d int) Val {
 		if r, ok := env[x]; ok {
 			return r
 		}
+		if call, ok := v.(*ssa.Call); ok {
+			switch calleeName(&call.Call) {
+			case "fmt.Errorf", "errors.New", "errors.Join":
+				return vNil(false)
+			}
+		}
 		return unknown
 	case *ssa.UnOp:
 		if x.Op == token.NOT {
@@ -359,6 +365,10 @@ func (w *Walk) evalD(v ssa.Value, env Env, d int) Val {
 		if x.Op == token.MUL {
 			if u := unspill(x); u != ssa.Value(x) {
 				return w.evalD(u, env, d+1)
+			}
+			// a package-level error sentinel (var ErrX = errors.New(...)) is never nil
+			if g, ok := x.X.(*ssa.Global); ok && isErrorType(x.Type()) && strings.HasPrefix(g.Name(), "Err") || ok && isErrorType(x.Type()) && strings.HasPrefix(g.Name(), "err") {
+				return vNil(false)
 			}
 		}
 		return unknown
@@ -544,9 +554,9 @@ func (w *Walk) followCall(call *ssa.Call, b *ssa.BasicBlock, idx int, env Env, r
 
 // returnTo continues the caller after a followed call, with the call's results bound to what
 // this return of the callee yields.
-func (w *Walk) returnTo(fr *frame, ret *ssa.Return, env Env, st PathState) {
+func (w *Walk) returnTo(fr *frame, ret *ssa.Return, env Env, st PathState, raw map[*ssa.Phi]ssa.Value) {
 	if w.OnReturn != nil {
-		w.OnReturn(fr.call, ret, st)
+		w.OnReturn(fr.call, ret, st, raw)
 	}
 	nenv := make(Env, len(fr.env)+len(ret.Results))
 	for k, v := range fr.env {
